@@ -162,6 +162,47 @@ def _collapse(seq):
     return out
 
 
+def aggparam_decode_rules(ctx, rule):
+    """Poplar1AggregationParam::decode: padding bits of every packed prefix are refused, with a mask that covers exactly the
+    unused low bits of the last byte; prefixes are truncated to the level (shared by C07 and C20)"""
+    try:
+        f = ctx.fn(rule, name="decode", trait="Decode", self_adt="vdaf::poplar1::Poplar1AggregationParam")
+        g = ctx.guards(f)
+        e = ctx.require_guard(rule, f, "Gt", Bin("BitAnd", Any(), Any()), Lit(0), every_iteration=True,
+                              desc="last byte & mask > 0 -> Err  [every prefix]")
+        # mask construction: bits (8 - num_bits)..8 set, complemented; num_bits = (level + 1) % 8
+        key = "%s:%s:mask-covers-all-padding-bits" % (rule, f.id)
+        terms = all_terms(ctx, f)
+        nb = lambda x: Bin("Rem", Bin("Add", ThroughCasts(Mentions(Call("decode"))), Lit(1), commutative=True), Lit(8))(x)
+        rng_ok = any(Mentions(Agg("Range", Bin("Sub", Lit(8), nb), Lit(8)))(t) for t in terms)
+        shl_ok = any(isinstance(x, tuple) and x[0] == "bin" and x[1] in ("Shl", "ShlWithOverflow") and Lit(1)(x[2]) and Mentions(Call("next"))(x[3])
+                     for t in terms for x in walk(t))
+        xor_ok = any(isinstance(x, tuple) and x[0] == "bin" and x[1] == "BitXor" and (Lit(255)(x[2]) or Lit(255)(x[3])) for t in terms for x in walk(t))
+        # or a constant table indexed by the number of used bits n = (level+1) % 8: entry n must be the low 8-n bits (0 for n = 0)
+        tab_ok = False
+        for t in terms:
+            for x in walk(t):
+                if isinstance(x, tuple) and x[0] == "index" and nb(x[2]) and isinstance(x[1], tuple) and x[1][0] in ("sym", "symlit"):
+                    c = ctx.prog.const_by_path.get(x[1][1]) or {}
+                    va = c.get("va")
+                    if va is not None and len(va) == 8 and all(int(va[n]) == (0 if n == 0 else (1 << (8 - n)) - 1) for n in range(8)):
+                        tab_ok = True
+        if tab_ok:
+            ctx.ok(rule, key, "mask = table[(level+1) % 8] with table[n] = 2^(8-n) - 1 (0 for n = 0): all low padding bits are checked", loc=f.loc)
+        elif rng_ok and shl_ok and xor_ok:
+            ctx.ok(rule, key, "mask = !(OR of 1 << i for i in (8 - (level+1)%8)..8): all low padding bits are checked", loc=f.loc)
+        else:
+            ctx.bad(rule, key, "the padding-bit mask is not built from all positions (8 - (level+1)%%8)..8 (range=%s shift=%s complement=%s)" % (rng_ok, shl_ok, xor_ok), loc=f.loc)
+        # zero-mask case only when (level+1) % 8 == 0
+        key = "%s:%s:prefix-truncated-to-level" % (rule, f.id)
+        if any(Mentions(Call("prefix", Call("from_bytes"), ThroughCasts(Mentions(Call("decode")))))(t) for t in terms):
+            ctx.ok(rule, key, "every prefix is IdpfInput::from_bytes(buf).prefix(level)", loc=f.loc)
+        else:
+            ctx.bad(rule, key, "decoded prefixes are not truncated to the level", loc=f.loc)
+    except Skip:
+        pass
+
+
 def order_rules(ctx, rule="R-C07.O", floor=11):
     """writer and reader agree on the ORDER of the fields: for every struct - and every struct-like enum variant - with an
     Encode impl and a Decode / ParameterizedDecode impl, the sequence of fields written (calls that take the output buffer,
@@ -505,31 +546,7 @@ def run(ctx):
             ctx.bad(rule, key, "the unused packed control bits [2*bits..] are not all required to be zero", loc=f.loc)
     except Skip:
         pass
-    try:
-        f = ctx.fn(rule, name="decode", trait="Decode", self_adt="vdaf::poplar1::Poplar1AggregationParam")
-        g = ctx.guards(f)
-        e = ctx.require_guard(rule, f, "Gt", Bin("BitAnd", Any(), Any()), Lit(0), every_iteration=True,
-                              desc="last byte & mask > 0 -> Err  [every prefix]")
-        # mask construction: bits (8 - num_bits)..8 set, complemented; num_bits = (level + 1) % 8
-        key = "%s:%s:mask-covers-all-padding-bits" % (rule, f.id)
-        terms = all_terms(ctx, f)
-        nb = lambda x: Bin("Rem", Bin("Add", ThroughCasts(Mentions(Call("decode"))), Lit(1), commutative=True), Lit(8))(x)
-        rng_ok = any(Mentions(Agg("Range", Bin("Sub", Lit(8), nb), Lit(8)))(t) for t in terms)
-        shl_ok = any(isinstance(x, tuple) and x[0] == "bin" and x[1] in ("Shl", "ShlWithOverflow") and Lit(1)(x[2]) and Mentions(Call("next"))(x[3])
-                     for t in terms for x in walk(t))
-        xor_ok = any(isinstance(x, tuple) and x[0] == "bin" and x[1] == "BitXor" and (Lit(255)(x[2]) or Lit(255)(x[3])) for t in terms for x in walk(t))
-        if rng_ok and shl_ok and xor_ok:
-            ctx.ok(rule, key, "mask = !(OR of 1 << i for i in (8 - (level+1)%8)..8): all low padding bits are checked", loc=f.loc)
-        else:
-            ctx.bad(rule, key, "the padding-bit mask is not built from all positions (8 - (level+1)%%8)..8 (range=%s shift=%s complement=%s)" % (rng_ok, shl_ok, xor_ok), loc=f.loc)
-        # zero-mask case only when (level+1) % 8 == 0
-        key = "%s:%s:prefix-truncated-to-level" % (rule, f.id)
-        if any(Mentions(Call("prefix", Call("from_bytes"), ThroughCasts(Mentions(Call("decode")))))(t) for t in terms):
-            ctx.ok(rule, key, "every prefix is IdpfInput::from_bytes(buf).prefix(level)", loc=f.loc)
-        else:
-            ctx.bad(rule, key, "decoded prefixes are not truncated to the level", loc=f.loc)
-    except Skip:
-        pass
+    aggparam_decode_rules(ctx, rule)
     try:
         f = ctx.fn(rule, name="decode_fixlen_items", id_re=r"^codec::decode_fixlen_items$")
         g = ctx.guards(f)
